@@ -1789,7 +1789,23 @@ impl BytecodeVM {
     ) -> Result<(), JsError> {
         // Capture stack trace BEFORE unwinding the trampoline stack
         // This gives us the full call stack at the point of error
-        let wrapped_error = self.wrap_error_with_trace(e);
+        let wrapped_error = match e {
+            // Raised inside a nested run this frame started (a getter, a callback invoked by a
+            // native function): the frames of this run are the callers of that run's frames
+            JsError::RuntimeError {
+                kind,
+                message,
+                mut stack,
+            } => {
+                stack.extend(self.build_stack_trace());
+                JsError::RuntimeError {
+                    kind,
+                    message,
+                    stack,
+                }
+            }
+            e => self.wrap_error_with_trace(e),
+        };
 
         // First check for handler in current frame
         if let Some((handler_ip, is_catch)) = self.find_exception_handler(interp) {
